@@ -7,9 +7,14 @@ n = len(r)
 alarms = {k: v['false_alarms'] for k, v in r.items() if v['false_alarms']}
 gave = {k: v['gave_up'] for k, v in r.items() if v['gave_up']}
 runs = sum(len(v['silent']) + len(v['false_alarms']) + len(v['gave_up']) for v in r.values())
-lines = ['%d behaviour-preserving refactorings (4 per property, 14 properties; `seeded/refactor/<id>/`), each applied to /repo and run against all %d checks = %d check runs: '
+skipped = sum(len(v.get('not_run_units_untouched', [])) for v in r.values())
+props = sorted({k[:3] for k in r})
+side = sum(1 for v in r.values() if v.get('tree', '/repo') != '/repo')
+lines = ['%d behaviour-preserving refactorings (4 per property, %d properties; `seeded/refactor/<id>/`). Each was applied to a clean checkout of the current head '
+         '(%d to /repo itself, %d to identical scratch worktrees run in parallel, `F8_REPO=<tree>`) and every check that loads a unit the patch touches was run '
+         '(a header change reaches all 31; a check that loads no touched unit is a function of unchanged facts and was not re-run: %d such pairs) = %d check runs: '
          '**%d false alarms** (exit 1) in %d patches, %d give-ups (exit 2) in %d patches, the rest silent.\n' %
-         (n, 31, runs, sum(len(v) for v in alarms.values()), len(alarms), sum(len(v) for v in gave.values()), len(gave))]
+         (n, len(props), n - side, side, skipped, runs, sum(len(v) for v in alarms.values()), len(alarms), sum(len(v) for v in gave.values()), len(gave))]
 if alarms:
     lines.append('\nRemaining false alarms:\n')
     for k, v in sorted(alarms.items()):
